@@ -18,6 +18,7 @@ def parse():
         st.pc += [z3.Length(OLD) >= 2]
         me = E.VObj(SP, 'sp')
         r.set('sp', '_hashed_raw', E.VNone())
+        r.set('sp', '_unhashed_raw', E.VNone())
         buf = ex.new_buf(st, OLD)
         hl = OLD[0] * 256 + OLD[1]
         st.facts += [OLD[0] >= 0, OLD[0] < 256, OLD[1] >= 0, OLD[1] < 256]
@@ -44,6 +45,8 @@ def parse():
             hashed = (isinstance(key.s, str) and key.s.startswith('h_')) or (key.prefix or '').startswith('h_')
             if hashed:
                 st.heap[(o.ref, '_hashed_raw')] = E.VNone()       # contract of __setitem__: a hashed addition drops the raw octets
+            else:
+                st.heap[(o.ref, '_unhashed_raw')] = E.VNone()
             st.ghost.setdefault('stored', []).append(bool(hashed))
             return [(st, E.VNone())]
         r.hook(SP, '__setitem__', scn.method_hook(setitem))
@@ -81,6 +84,12 @@ def parse():
             if isbytes:
                 r.oblige(s, 'hashed-area-is-the-received-octets/p%d' % pi, ex.seq(raw, s) == z3.Extract(OLD, 0, 2 + hl))
                 r.oblige(s, 'hashed-area-complete/p%d' % pi, z3.Length(OLD) >= 2 + hl)
+            uraw = s.heap.get(('sp', '_unhashed_raw'))
+            if isinstance(uraw, (E.VBuf, E.VBytes)):
+                # when kept, the unhashed area is the received octets that follow the hashed area (its two-octet count included)
+                uhl = OLD[2 + hl] * 256 + OLD[2 + hl + 1]
+                r.oblige(s, 'unhashed-area-kept-verbatim/p%d' % pi,
+                         z3.Implies(z3.Length(OLD) >= 2 + hl + 2, ex.seq(uraw, s) == z3.Extract(OLD, 2 + hl, 2 + uhl)))
         r.oblige(st, 'cover-normal-return', z3.BoolVal(nret > 0))
         return r.result()
     return Scenario(label, SP + '.parse', gen, props=('C05', 'C08'))
@@ -91,6 +100,20 @@ def _mk_sp(f):
     sp = SubPackets()
     sp._hashed_raw = f['_hashed_raw']
     return sp
+
+
+def _mk_sp_u(f):
+    from pgpy.packet.fields import SubPackets
+    sp = SubPackets()
+    sp._unhashed_raw = f['_unhashed_raw']
+    return sp
+
+
+unhashbytes_raw = Contract(
+    'C08/SubPackets.__unhashbytearray__[parsed]', SP + '.__unhashbytearray__',
+    params={'self': Obj(SP, {'_unhashed_raw': Bytes(2, 70000, kind='bytearray')}, build=_mk_sp_u)},
+    ensures=[('verbatim', 'result == self._unhashed_raw')],
+    props=('C08',))
 
 
 hashbytes_raw = Contract(
@@ -107,8 +130,10 @@ def copy_keeps_raw():
         r = scn.Run(repo, SP, '__copy__', label)
         ex, st = r.ex, r.st
         RAW = z3.Const('RAW', B)
+        URAW = z3.Const('UNHASHED_RAW', B)
         me = E.VObj(SP, 'sp')
         r.set('sp', '_hashed_raw', ex.new_buf(st, RAW))
+        r.set('sp', '_unhashed_raw', ex.new_buf(st, URAW))
         r.set('sp', '_hashed_sp', E.VDict([]))
         r.set('sp', '_unhashed_sp', E.VDict([]))
         for pi, (s, v) in enumerate(r.call(me, [])):
@@ -133,6 +158,7 @@ def setitem_drops_raw():
         ex, st = r.ex, r.st
         me = E.VObj(SP, 'sp')
         r.set('sp', '_hashed_raw', ex.new_buf(st, z3.Const('RAW', B)))
+        r.set('sp', '_unhashed_raw', ex.new_buf(st, z3.Const('UNHASHED_RAW', B)))
         r.set('sp', '_hashed_sp', E.VDict([]))
         r.set('sp', '_unhashed_sp', E.VDict([]))
         val = E.VObj('pgpy.packet.subpackets.signature.CreationTime', 'newsp')
@@ -148,4 +174,4 @@ def setitem_drops_raw():
 
 
 def scenarios():
-    return [parse(), hashbytes_raw, copy_keeps_raw(), setitem_drops_raw()]
+    return [parse(), hashbytes_raw, unhashbytes_raw, copy_keeps_raw(), setitem_drops_raw()]
